@@ -86,8 +86,8 @@ func Corpus() []CorpusCase {
 			&Property{Name: "byName", Optional: true, F: &Field{Kind: "map", Item: obj(prop("v", str("string")))}},
 			&Property{Name: "note", Optional: true, F: str("string")},
 			prop("plain", &Field{Kind: "array", Item: str("string")}))))
-	// known finding (C02): a FIRST option ending in UNSPECIFIED under a name of its own is taken as the zero
-	// value: STATUS_OLD_UNSPECIFIED = 0, STATUS_ACTIVE = 1 - no STATUS_UNSPECIFIED, options numbered from 0
+	// regression (fix a65e1f2): a FIRST option ending in UNSPECIFIED under a name of its own was taken as the zero
+	// value (STATUS_OLD_UNSPECIFIED = 0, STATUS_ACTIVE = 1 - no STATUS_UNSPECIFIED, options numbered from 0)
 	add("enum-first-option-named-unspecified", "foo.v1", file(foo, "a",
 		&Element{Kind: "enum", N: &Nested{Kind: "enum", Name: "Status", Enum: &Enum{Name: "Status", Opts: []string{"OLD_UNSPECIFIED", "ACTIVE"}}}},
 		// the zero value spelled out with the prefix on: documented, not the finding
@@ -132,12 +132,15 @@ func Corpus() []CorpusCase {
 			file(second, "a", object("Thing", prop("b", str("string")))),
 			user)
 	}
-	// outside the language, accepted by the compiler: repeated / optional / required members of a oneof
+	// options of a oneof: an array or a map is rejected (fix a0446fc / 466a7f9), required / optional marks are accepted
+	// (optional says nothing: no proto3_optional on a member of the wrapper's oneof)
 	oneofEl := func(ps ...*Property) *Element {
 		return &Element{Kind: "oneof", N: &Nested{Kind: "oneof", Name: "Ch", Props: ps}}
 	}
 	add("outside-oneof-array-member", "foo.v1", file(foo, "a", oneofEl(prop("a", &Field{Kind: "array", Item: str("string")}), prop("b", str("string")))))
 	add("outside-oneof-required-member", "foo.v1", file(foo, "a", oneofEl(&Property{Name: "a", Required: true, F: str("string")}, prop("b", str("string")))))
+	add("oneof-optional-member", "foo.v1", file(foo, "a", oneofEl(&Property{Name: "a", Optional: true, F: str("string")}, prop("b", str("string"))),
+		&Element{Kind: "oneof", N: &Nested{Kind: "oneof", Name: "Later", Props: []*Property{prop("a", str("string")), {Name: "b", Optional: true, F: str("string")}}}}))
 	add("outside-oneof-map-member", "foo.v1", file(foo, "a", oneofEl(prop("a", &Field{Kind: "map", Item: str("string")}), prop("b", str("string")))))
 	add("outside-empty-oneof", "foo.v1", file(foo, "a", oneofEl()))
 	// outside the language, rejected by the compiler (protocompile: symbol already defined): two
@@ -204,6 +207,11 @@ func emptyEnum(opts ...string) *Bundle {
 		&Element{Kind: "enum", N: &Nested{Kind: "enum", Name: "Status", Enum: &Enum{Name: "Status", Opts: opts}}})}}
 }
 
+func withNum(b *Bundle, opt string, n int) *Bundle {
+	b.Files[0].Elements[0].N.Enum.OptNum = map[string]int{opt: n}
+	return b
+}
+
 func nestedEmptyEnum(opts ...string) *Bundle {
 	return &Bundle{Files: []*File{file([]string{"foo", "v1"}, "a",
 		&Element{Kind: "object", N: &Nested{Kind: "object", Name: "Foo", Props: []*Property{prop("x", str("string"))},
@@ -244,19 +252,22 @@ func EditCorpus() []EditPair {
 			{"option", "foo/v1/a.j5s:Status", "INACTIVE", "EAppendOption 0 1 " + S("INACTIVE"), ""}}, false},
 		// defect: the appended inline type Foo.Foo captures the relative name Foo.X of the existing field
 		{mk(), mk(fooP), "foo.v1", []EditRec{{"field", "foo/v1/a.j5s:Foo", "foo objinline", "EAppendIn 0 0 AtDecl [] (AField " + fooP.Coq() + ")", ""}}, false},
-		// known finding: an enum without options; the appended option is its first, ends in UNSPECIFIED
-		// and therefore replaces the implicit zero value STATUS_UNSPECIFIED by STATUS_OLD_UNSPECIFIED
+		// regression (fix a65e1f2): an enum without options; the appended option is its first, ends in UNSPECIFIED
+		// and used to replace the implicit zero value STATUS_UNSPECIFIED by STATUS_OLD_UNSPECIFIED
 		{emptyEnum(), emptyEnum("OLD_UNSPECIFIED"), "foo.v1",
-			[]EditRec{{"option", "foo/v1/a.j5s:Status", "OLD_UNSPECIFIED", "EAppendOption 0 0 " + S("OLD_UNSPECIFIED"), ""}}, true},
-		// the known finding at depth: an enum without options nested in an object, the option appended through an address
+			[]EditRec{{"option", "foo/v1/a.j5s:Status", "OLD_UNSPECIFIED", "EAppendOption 0 0 " + S("OLD_UNSPECIFIED"), ""}}, false},
+		// the same at depth: an enum without options nested in an object, the option appended through an address
 		{nestedEmptyEnum(), nestedEmptyEnum("OLD_UNSPECIFIED"), "foo.v1",
-			[]EditRec{{"option", "foo/v1/a.j5s:Foo.Status", "OLD_UNSPECIFIED", "EAppendIn 0 0 AtDecl [SNested 0] (AOption " + S("OLD_UNSPECIFIED") + ")", ""}}, true},
+			[]EditRec{{"option", "foo/v1/a.j5s:Foo.Status", "OLD_UNSPECIFIED", "EAppendIn 0 0 AtDecl [SNested 0] (AOption " + S("OLD_UNSPECIFIED") + ")", ""}}, false},
 		// seeded C13-D class, deterministic: a field referring to the type of the implicit leading field appended to
 		// a reqres request message / an upsert message (the implicit field must keep number 1, the old fields theirs)
 		{topicBundle("reqres", nil), topicBundle("reqres", fwd), "foo.v1",
 			[]EditRec{{"field", "foo/v1/a.j5s/topic:BazRequestMessage", "forwardedFor ref to implicit type RequestMetadata", "EAppendTopicField 0 0 0 " + fwd.Coq(), ""}}, false},
 		{topicBundle("upsert", nil), topicBundle("upsert", ups), "foo.v1",
 			[]EditRec{{"field", "foo/v1/a.j5s/topic:BazMessage", "prev ref to implicit type UpsertMetadata", "EAppendTopicField 0 0 0 " + ups.Coq(), ""}}, false},
+		// seeded C13-G class, deterministic: the appended option carries `number = 2`, a number an earlier option has
+		{emptyEnum("LOW", "MEDIUM", "HIGH"), withNum(emptyEnum("LOW", "MEDIUM", "HIGH", "URGENT"), "URGENT", 2), "foo.v1",
+			[]EditRec{{"option", "foo/v1/a.j5s:Status", "URGENT {number = 2}", "EAppendOption 0 0 " + S("URGENT"), ""}}, false},
 		// not the finding: an ordinary option, and the zero value spelled out, appended to an enum without options
 		{emptyEnum(), emptyEnum("ACTIVE", "OLD_UNSPECIFIED"), "foo.v1",
 			[]EditRec{{"option", "foo/v1/a.j5s:Status", "ACTIVE", "EAppendOption 0 0 " + S("ACTIVE"), ""},
